@@ -67,8 +67,9 @@ def run_case(case, ses):
     blocks = cp.blocks(cm.iface.values())
     r0, _ = ses.solve(P, label=spec['name'] + '/feasible')
     if r0 != 'sat':
-        if spec['name'].startswith('rand') and r0 == 'unsat':
-            # a seeded random member may be robustly infeasible: it carries no information, skip it
+        if spec['name'].startswith('rand'):
+            # a seeded random member may be robustly infeasible (or its feasibility undecided within the time
+            # limit): it carries no information, skip it
             ses.stats.kinds['skipped-infeasible-member'] = ses.stats.kinds.get('skipped-infeasible-member', 0) + 1
             return
         raise HarnessError('compiled program of family member %s is not feasible (%s): vacuous' % (spec['name'], r0))
